@@ -53,7 +53,11 @@ def canon_model(ans):
     return ["ok", ans[1], list(ans[2])]
 
 
+LAST_ITEMS = {}
+
+
 def run_impl(c, pool, scratch):
+    LAST_ITEMS.clear()
     """returns (canonical answer, input td after the call, out td, x_full)"""
     shape, d, feat = c["shape"], c["d"], c["feat"]
     inp = make_input(shape, d, feat)
@@ -87,13 +91,17 @@ def run_impl(c, pool, scratch):
             else:
                 items = list(inp.map_iter(fn, c["dim"], **kw))
                 rows = []
+                per_item = []
                 for it in items:
                     if it is None:
+                        per_item.append("none")
                         continue
                     if it.batch_dims < len(shape):  # unbound member
                         it = it.unsqueeze(d)
-                    rows += rows_of(it, d, x_full)
+                    per_item.append(rows_of(it, d, x_full))
+                    rows += per_item[-1]
                 r = rows if rows else "none"
+                LAST_ITEMS["items"] = per_item
         ans = ["ok", r, rows_of(out, d, x_full) if out is not None else []]
     except TimeoutError as e:
         raise Infra(f"implementation call timed out: {e}")
@@ -194,6 +202,11 @@ def run_map(run, drv):
                     model = canon_model(mans)
                     impl = ans[:2] if ans[0] == "err" else ans
                     ok = run.corr("map(model)", c, impl, model)
+                    if c["api"] == "map_iter" and "items" in LAST_ITEMS:
+                        # map_iter item by item: what the iterator yields, in order (None results included)
+                        mi = parse_sx(drv.ask(sx("c12.mapiter", n, c["cs"], c["nc"], c["w"], c["gen"], c["mask"])))
+                        run.corr("map_iter(items in order)", c, ["ok"] + LAST_ITEMS["items"],
+                                 ["ok"] + [("none" if y == "none" else [list(r_) for r_ in y]) for y in mi[1:]] if mi[0] == "ok" else list(mi))
                     oracle(run, c, ans, inp)
                     if i < 3:
                         run.sample({"stream": "map", "case": {k: c[k] for k in ("shape", "dim", "cs", "nc", "w", "gen", "out", "fn", "mask")}, "impl": impl, "model": model})
@@ -201,6 +214,63 @@ def run_map(run, drv):
                 for p in pools.values():
                     p.terminate()
                     p.join()
+        # ---- map_iter(shuffle=True) vs mapIterShuffleModel: torch.randperm is replaced by a known permutation; with one worker
+        #      imap_unordered yields in submission order (compared item by item), with two in completion order (compared as a set of chunks)
+        from unittest import mock
+        from tensordict import TensorDict
+        from c12_fns import ident_fn
+        ctx = mp.get_context("fork")
+        spools = {1: ctx.Pool(1), 2: ctx.Pool(2)}
+        try:
+            for it in range(16 if quick else 120):
+                n = rng.choice([1, 2, 3, 4, 5, 6, 7])
+                rank2 = rng.random() < 0.4
+                shape, d = ([2, n], 1) if rank2 else ([n], 0)
+                view = [1, n] if rank2 else [n]
+                td = TensorDict({"r": torch.arange(n).reshape(view).expand(shape).clone()}, shape)
+                mode = rng.choice(["cs", "cs", "nc", "default"])
+                cs = rng.randint(0, n + 1) if mode == "cs" else None
+                nc = rng.randint(1, n + 1) if mode == "nc" else None
+                w = rng.choice([1, 2])
+                gen = it % 8 != 7
+                rp = list(range(n))
+                rng.shuffle(rp)
+                case = {"shape": shape, "dim": d, "cs": cs, "nc": nc, "w": w, "gen": gen, "rp": rp}
+                run.case(("map_iter-shuffle", it, str(case)))
+
+                def fake_randperm(n_, *a, dtype=None, device=None, **k):
+                    return torch.tensor(rp[:n_], dtype=dtype or torch.int64)
+                try:
+                    with time_limit(120), mock.patch.object(torch, "randperm", fake_randperm):
+                        items = list(td.map_iter(ident_fn, d, shuffle=True, index_with_generator=gen, pool=spools[w], chunksize=cs, num_chunks=nc))
+                    chunks = []
+                    for item in items:
+                        rr = item["r"]
+                        if item.batch_dims < len(shape):
+                            rr = rr.unsqueeze(d)
+                        chunks.append(rr.select(0, 0).reshape(-1).tolist() if rank2 else rr.reshape(-1).tolist())
+                    impl = ["ok"] + (chunks if w == 1 else sorted(chunks))
+                except TimeoutError as e:
+                    raise Infra(f"map_iter(shuffle) timed out: {e}")
+                except RuntimeError as e:
+                    impl = ["err", "shuffle-eager" if "Shuffling is not permitted" in str(e) else f"runtime: {str(e)[:80]}"]
+                except ZeroDivisionError:
+                    impl = ["err", "zerodiv"]
+                except Exception as e:  # noqa: BLE001
+                    impl = ["err", f"{type(e).__name__}: {str(e)[:80]}"]
+                m = parse_sx(drv.ask(sx("c12.mapitershuffle", n, cs, nc, w, gen, rp, list(range(n + 2)))))
+                model = ["ok"] + ([list(y) for y in m[1:]] if w == 1 else sorted(list(y) for y in m[1:])) if m[0] == "ok" else list(m)
+                run.corr("map_iter(shuffle, known permutation)", case, impl, model)
+                if impl[0] == "ok":
+                    flat = sorted(x for ch in impl[1:] for x in ch)
+                    if flat == list(range(n)):
+                        run.oracle_ok("map_iter_shuffle_covers_each_row_once")
+                    else:
+                        run.oracle_fail("map_iter_shuffle_covers_each_row_once", case, f"rows yielded: {flat}", "shuffle:coverage")
+        finally:
+            for p_ in spools.values():
+                p_.terminate()
+                p_.join()
         # ---- edge: empty mapped dim and argument errors (model = error class only; no property claim beyond "same as the model")
         ctx = mp.get_context("fork")
         pool = ctx.Pool(2)
@@ -269,11 +339,24 @@ def probe_max_tasks_per_child(run):
     try:
         for method in ("fork",):
             run.case(("excluded", "max_tasks_per_child", method), nontrivial=False)
+            # a session of its own: on a hang the whole group (the probe and the pool workers it started) is killed
+            proc = subprocess.Popen([sys.executable, str(script), method], env=env, stdout=subprocess.PIPE, stderr=subprocess.PIPE, text=True,
+                                    start_new_session=True)
             try:
-                p = subprocess.run([sys.executable, str(script), method], env=env, capture_output=True, text=True, timeout=45)
-                what = "ok" if "PROBE-OK" in p.stdout else "raised: " + (p.stderr.strip().splitlines() or ["?"])[-1][:160]
+                out, err = proc.communicate(timeout=45)
+                what = "ok" if "PROBE-OK" in out else "raised: " + (err.strip().splitlines() or ["?"])[-1][:160]
             except subprocess.TimeoutExpired:
                 what = "hangs (no result after 45 s for 6 one-row chunks)"
+            finally:
+                import signal
+                try:
+                    os.killpg(proc.pid, signal.SIGKILL)
+                except (ProcessLookupError, PermissionError):
+                    pass
+                try:
+                    proc.communicate(timeout=10)
+                except Exception:  # noqa: BLE001
+                    pass
             run.count("excluded.max_tasks_per_child", what.split(":")[0].split(" ")[0])
             if what == "ok":
                 run.oracle_ok("excluded_point(max_tasks_per_child)")
